@@ -15,10 +15,14 @@ Import ListNotations.
      S1 super_depth out of fuel, S2 HandleTable::entry that never grows (A-5, repaired: the generated constant
      CompilerGen.ht_entry_grows is true), S3 back-patching at a position that holds no jump - unreachable for
      every module;
-     S4 debug_assert!(hash != 0) in Handle::from_bytes (names, card index paths), S5 labels.insert(Handle(0))
-     .unwrap(), S6 / S7 u32::try_from(len).expect(..) on the bytecode / a string - excluded by the decidable
-     domain [module_in_domain]: total emitted size below 2^32 (a structural over-approximation), no hashed name
-     or card path with FNV-1a hash 0 in a debug build, no function / closure label handle 0.
+     S4 debug_assert!(hash != 0) in Handle::from_bytes (names, card index paths) - removed from the crate by
+     3f22e7c "handles are never 0"; S5 labels.insert(Handle(0)).unwrap() - unreachable since the same commit
+     (handles are non-zero by construction: C04Proofs.into_ir_stream_nz, CompilerOk.handle_add_neq);
+     S6 / S7 u32::try_from(len).expect(..) on the bytecode / a string - excluded by the decidable domain
+     [module_in_domain]: total emitted size below 2^32 (a structural over-approximation).
+     STATEMENT CHANGE (strengthening): until 3f22e7c the domain also required "no hashed name or card path
+     with FNV-1a hash 0 in a debug build, no function / closure label handle 0"; the theorem is now proved
+     without those conditions.
    The domain does NOT assume valid names, matching arities, a main function, resolvable calls or imports:
    all of those come out as CErr. *)
 Theorem C04_compile_total :
@@ -45,31 +49,33 @@ Theorem C04_patch_code_complete : forall code q z,
 Proof. exact patch_code_complete. Qed.
 Print Assumptions C04_patch_code_complete.
 
-(* The domain restrictions S4 / S5 are necessary: findings N-C04-1..3, replayed on the crate by the stream.
-   `compile_total` without the hash conditions is refuted by three small modules. *)
+(* Findings N-C04-1..3 (repaired by 3f22e7c): three small modules on which the crate panicked because a
+   handle was 0.  They were stated as C04_compile_total_zero_{name,path,label}_refuted (compile = CPanic outside the domain);
+   with non-zero handles they compile in both build profiles and lie in the domain.  The stream replays them
+   on the crate in every run (the classes find.zero_name, find.zero_path, find.zero_label). *)
 
-(* N-C04-1: main = [SetGlobalVar "ppkttia" 7]; FNV-1a-32("ppkttia") = 0.  Debug builds: debug_assert panic.
-   (Release builds: HandleTable::entry(Handle(0)) reports an Occupied entry for an empty slot and the
-   variable id is read from uninitialised memory - outside the model, which treats 0 like any key.) *)
-Theorem C04_compile_total_zero_name_refuted :
-  compile zero_name_module (opts true) = CPanic /\ is_ok (compile zero_name_module (opts false)) = true /\
-  C04Proofs.module_in_domain zero_name_module (opts true) = false.
-Proof. exact zero_name_panics. Qed.
-Print Assumptions C04_compile_total_zero_name_refuted.
+(* N-C04-1: main = [SetGlobalVar "ppkttia" 7]; FNV-1a-32("ppkttia") = 0.  (Before: debug_assert panic in debug
+   builds; in release builds HandleTable::entry(Handle(0)) reported an Occupied entry for an empty slot and
+   the variable id was read from uninitialised memory.) *)
+Theorem C04_zero_name_repaired :
+  is_ok (compile zero_name_module (opts true)) = true /\ is_ok (compile zero_name_module (opts false)) = true /\
+  C04Proofs.module_in_domain zero_name_module (opts true) = true.
+Proof. exact zero_name_repaired. Qed.
+Print Assumptions C04_zero_name_repaired.
 
 (* N-C04-2: the card with index path [9; 17; 25; 29; 57] (142 cards in all): the path hashes to 0 *)
-Theorem C04_compile_total_zero_path_refuted :
-  compile zero_path_module (opts true) = CPanic /\ is_ok (compile zero_path_module (opts false)) = true /\
-  C04Proofs.module_in_domain zero_path_module (opts true) = false.
-Proof. exact zero_path_panics. Qed.
-Print Assumptions C04_compile_total_zero_path_refuted.
+Theorem C04_zero_path_repaired :
+  is_ok (compile zero_path_module (opts true)) = true /\ is_ok (compile zero_path_module (opts false)) = true /\
+  C04Proofs.module_in_domain zero_path_module (opts true) = true.
+Proof. exact zero_path_repaired. Qed.
+Print Assumptions C04_zero_path_repaired.
 
-(* N-C04-3: a closure at path [14; 16; 30; 56; 75] of main gets the label handle 0: panic in every build *)
-Theorem C04_compile_total_zero_label_refuted :
-  compile zero_label_module (opts false) = CPanic /\ compile zero_label_module (opts true) = CPanic /\
-  C04Proofs.module_in_domain zero_label_module (opts false) = false.
-Proof. exact zero_label_panics. Qed.
-Print Assumptions C04_compile_total_zero_label_refuted.
+(* N-C04-3: a closure at path [14; 16; 30; 56; 75] of main got the label handle 0 (panic in every build) *)
+Theorem C04_zero_label_repaired :
+  is_ok (compile zero_label_module (opts false)) = true /\ is_ok (compile zero_label_module (opts true)) = true /\
+  C04Proofs.module_in_domain zero_label_module (opts false) = true.
+Proof. exact zero_label_repaired. Qed.
+Print Assumptions C04_zero_label_repaired.
 
 (* ------------------------------------------------------------------ the VM *)
 From Cao Require Import Stacks Vm VmProofs C04VmProofs.
